@@ -61,6 +61,26 @@ D = {
  "S-C18-4": ("market ExportGenesis skips workers with no storage and less than one coin of reward", "an idle worker holding a fraction of a coin at export time"),
  "S-C19-4": ("RecoverFaults checks only provider and shard id of an entry against the stored record", "recovery declared with a self-consistent entry for another order carrying the faulty shard's id"),
  "S-C20-4": ("verifySuperStorageNodes re-verifies only the delegator's own node when the delegator is a node", "super node A diluted below the threshold by a delegation of another storage node B"),
+ "S-C01-5": ("BeforeDelegationCreated clears the hook's package variable only when the validator already has shares", "a leftover in process memory on one replica (simulated failing delegation), then a MsgCreateValidator (validator with exactly zero shares) by a storage node"),
+ "S-C02-5": ("GetRewardAge tests remain < 0 instead of TotalReward >= cap", "Pool.TotalReward exactly equal to the cap: division by zero in BeginBlock"),
+ "S-C03-5": ("GetNextSuperNodes resets the cursor by writing into the slice returned by the store (no Set)", "cursor exactly equal to the number of super nodes after the set shrank, a failing transaction, the set grows back, a restart in between"),
+ "S-C04-5": ("Store quotes floor(price)+1 instead of ceil(price)", "size x replicas x duration an exact multiple of 1,000,000 (whole-coin price)"),
+ "S-C05-5": ("Store refuses only negative timeouts (< 0 instead of <= 0)", "a timeout of exactly 0: the check is scheduled in the creating block and never re-armed"),
+ "S-C06-5": ("SetExpiredShardBlock drops an expiry at exactly the current height (<= instead of <)", "a migration completed in exactly the last block of the old shard's term"),
+ "S-C07-5": ("AddVstorage credits (size/unit + 1) units", "a size that is an exact multiple of 1,000,000: one unit of capacity that no coin pays for"),
+ "S-C08-5": ("AddVstorage rebuilds the pledge record when TotalStorage is exactly 0 (accrued reward lost)", "withdraw exactly all capacity with unclaimed reward, then add capacity again"),
+ "S-C09-5": ("model EndBlocker looks up the expiry list of height+1", "the very last block of the model's paid lifetime: removed one block early, a stranger can re-create the data id"),
+ "S-C10-5": ("did Update does not delete the accountId->did record of the last removed account (off-by-one)", "an account dropped from the owner DID by a key rotation then submits the owner's proposal"),
+ "S-C11-5": ("HandleExpiredShard's removal loop never examines the last element of order.Shards", "replica >= 2 and the last-listed shard ends before an earlier-listed one"),
+ "S-C12-5": ("Store refuses only negative timeouts", "a timeout of exactly 0"),
+ "S-C13-5": ("SetExpiredShardBlock drops an expiry at exactly the current height", "migration completed in exactly the last block of the old shard's term"),
+ "S-C14-5": ("force-push settlement loop stops at index 1 (i > 0)", "force-push over a model whose only commit has been renewed (Orders = [store, renewal])"),
+ "S-C15-5": ("the early 'size 0 means 1' normalisation in Store is removed (selection runs with size 0)", "a proposal of size exactly 0 while a needed provider has exactly no free capacity"),
+ "S-C16-5": ("Terminate's in-flight guard uses (MetaNew, MetaComplete) instead of [MetaNew, MetaComplete)", "terminate of a model in its initial state, re-creation of the data id, completion of the left-over order"),
+ "S-C17-5": ("parseAcccountId re-implemented with FieldsFunc, which drops empty segments", "the canonical account id with a trailing ':' binds the same account to a second DID"),
+ "S-C18-5": ("GetAllTimeoutOrder (used by the export) skips entries at height <= H+1", "export taken in the block right before a scheduled timeout check"),
+ "S-C19-5": ("same loop slip as S-C11-5 (finished order keeps listing its last shard)", "replica 2 completed in reverse list order, renewed, a fishman reports the shard under the finished order"),
+ "S-C20-5": ("RemoveVstorage demotes only when 0 < remaining < threshold", "a super node withdraws exactly all of its capacity"),
  "S-C20-2": ("the staking hook takes the absolute value of the share delta, so a top-up is counted as a reduction", "a node right around the share threshold whose delegation is modified (top-up) after another delegation changed the validator's total"),
 }
 res = collections.defaultdict(list)
